@@ -317,6 +317,14 @@ def rule_support(ctx: Ctx):
                       f.key, f"return {xshow(p.value, p.events)}")
 
 
+def rule_providers(ctx: Ctx):
+    """C02.providers: callbacks of machine, model and listeners are all attached through the same path."""
+    from . import c12
+
+    c12.rule_samepath(ctx, rule="C02.providers")
+    c12.rule_filter(ctx, rule="C02.providers")
+
+
 def _const_prefix(t: ast.AST):
     if isinstance(t, ast.Constant) and isinstance(t.value, str):
         return t.value
@@ -537,4 +545,4 @@ def rule_once(ctx: Ctx, rule: str = "C02.once"):
     rep.floor(rule, "wrapper insertions", n, 1)
 
 
-RULES = [rule_order, rule_view, rule_keys, rule_support, rule_scope, rule_initial, rule_once]
+RULES = [rule_order, rule_view, rule_keys, rule_support, rule_scope, rule_initial, rule_once, rule_providers]
